@@ -17,6 +17,8 @@ import Mathlib.Data.Matrix.Mul
 import Mathlib.Data.Matrix.Basic
 import Mathlib.Algebra.BigOperators.Fin
 import Mathlib.Algebra.BigOperators.Field
+import Mathlib.Algebra.Order.BigOperators.Ring.Finset
+import Mathlib.Algebra.Order.BigOperators.Group.Finset
 import Mathlib.Algebra.Order.AbsoluteValue.Basic
 
 set_option linter.unusedSectionVars false
@@ -631,5 +633,120 @@ theorem piLoop_le (sqrt : α → α) (hsqrt : ∀ x, 0 ≤ x → sqrt x * sqrt x
     · exact h
 
 end PI
+
+/-! ## perturbed eigh root (ext) -/
+
+section Perturbed
+variable {α : Type} [Field α] [LinearOrder α] [IsStrictOrderedRing α] {n : Nat}
+
+/-- a row of an orthogonal matrix has `ℓ¹` norm at most ... in squared form: `(Σ|r_k|)² ≤ n` when `Σ r_k² = 1` -/
+theorem sq_sum_abs_le (r : Fin n → α) (hr : ∑ k, r k * r k = 1) : (∑ k, |r k|) ^ 2 ≤ (n : α) := by
+  have h := Finset.sum_mul_sq_le_sq_mul_sq Finset.univ (fun k => |r k|) (fun _ => (1 : α))
+  simp only [mul_one, one_pow, Finset.sum_const, Finset.card_univ, Fintype.card_fin, nsmul_eq_mul, sq_abs] at h
+  have h2 : ∑ k, r k ^ 2 = 1 := by rw [← hr]; exact Finset.sum_congr rfl fun k _ => pow_two _
+  rw [h2, one_mul] at h
+  simpa using h
+
+theorem orth_row_sq (U : MatR α n) (hU2 : U * Uᵀ = 1) (i : Fin n) : ∑ k, U i k * U i k = 1 := by
+  have := congrFun (congrFun hU2 i) i
+  simpa [Matrix.mul_apply, Matrix.transpose_apply] using this
+
+/-- entrywise bound for `U · diag(w) · Δ · Uᵀ` with `0 ≤ w ≤ c`, `|Δ| ≤ η`, `U` orthogonal: `≤ n · c · η` -/
+theorem conj_perturb_bound (U Δ : MatR α n) (hU2 : U * Uᵀ = 1) (w : Fin n → α) (c η : α)
+    (hw0 : ∀ k, 0 ≤ w k) (hwc : ∀ k, w k ≤ c) (hΔ : ∀ k l, |Δ k l| ≤ η) (i j : Fin n) :
+    |(U * (Matrix.diagonal w * Δ) * Uᵀ) i j| ≤ (n : α) * (c * η) := by
+  have hc : 0 ≤ c := by
+    by_cases hn : n = 0
+    · subst hn; exact i.elim0
+    · exact le_trans (hw0 i) (hwc i)
+  have hη : 0 ≤ η := le_trans (abs_nonneg _) (hΔ i i)
+  have hexp : (U * (Matrix.diagonal w * Δ) * Uᵀ) i j = ∑ l, ∑ k, U i k * (w k * Δ k l) * U j l := by
+    rw [Matrix.mul_apply]
+    apply Finset.sum_congr rfl; intro l _
+    rw [Matrix.mul_apply, Finset.sum_mul]
+    apply Finset.sum_congr rfl; intro k _
+    rw [Matrix.diagonal_mul, Matrix.transpose_apply]
+  rw [hexp]
+  have hterm : ∀ l k, |U i k * (w k * Δ k l) * U j l| ≤ (c * η) * (|U i k| * |U j l|) := by
+    intro l k
+    rw [abs_mul, abs_mul, abs_mul, abs_of_nonneg (hw0 k)]
+    have h1 : w k * |Δ k l| ≤ c * η := mul_le_mul (hwc k) (hΔ k l) (abs_nonneg _) hc
+    calc |U i k| * (w k * |Δ k l|) * |U j l| ≤ |U i k| * (c * η) * |U j l| :=
+          mul_le_mul_of_nonneg_right (mul_le_mul_of_nonneg_left h1 (abs_nonneg _)) (abs_nonneg _)
+      _ = (c * η) * (|U i k| * |U j l|) := by ring
+  have hsum : |∑ l, ∑ k, U i k * (w k * Δ k l) * U j l| ≤ (c * η) * ((∑ k, |U i k|) * (∑ l, |U j l|)) := by
+    calc |∑ l, ∑ k, U i k * (w k * Δ k l) * U j l|
+        ≤ ∑ l, |∑ k, U i k * (w k * Δ k l) * U j l| := Finset.abs_sum_le_sum_abs _ _
+      _ ≤ ∑ l, ∑ k, |U i k * (w k * Δ k l) * U j l| := Finset.sum_le_sum fun l _ => Finset.abs_sum_le_sum_abs _ _
+      _ ≤ ∑ l, ∑ k, (c * η) * (|U i k| * |U j l|) := Finset.sum_le_sum fun l _ => Finset.sum_le_sum fun k _ => hterm l k
+      _ = (c * η) * ((∑ k, |U i k|) * (∑ l, |U j l|)) := by
+          rw [Finset.sum_mul_sum, Finset.mul_sum, Finset.sum_comm]
+          apply Finset.sum_congr rfl; intro k _
+          rw [Finset.mul_sum]
+  refine le_trans hsum ?_
+  have ha := sq_sum_abs_le (fun k => U i k) (orth_row_sq U hU2 i)
+  have hb := sq_sum_abs_le (fun k => U j k) (orth_row_sq U hU2 j)
+  have ha0 : 0 ≤ ∑ k, |U i k| := Finset.sum_nonneg fun _ _ => abs_nonneg _
+  have hb0 : 0 ≤ ∑ k, |U j k| := Finset.sum_nonneg fun _ _ => abs_nonneg _
+  have hab : (∑ k, |U i k|) * (∑ l, |U j l|) ≤ (n : α) := by nlinarith [sq_nonneg ((∑ k, |U i k|) - (∑ l, |U j l|))]
+  calc c * η * ((∑ k, |U i k|) * ∑ l, |U j l|) ≤ c * η * (n : α) := mul_le_mul_of_nonneg_left hab (mul_nonneg hc hη)
+    _ = (n : α) * (c * η) := by ring
+
+/-- perturbed eigh root (no padding): if `U` is orthogonal, the computed eigenvalues are `≥ d` and
+`|Uᵀ R U − diag e|_max ≤ η`, then `|X^p R − 1|_max ≤ n · η / d` -/
+theorem eigh_root_perturbed_core [BEq α] [LawfulBEq α] (s p : Nat) (hns : n ≤ s) (sqrt invroot : α → α) (ridge : α)
+    (hridge : 0 < ridge) (U : Mat α n n) (e : Vec α n) (R : MatR α n) (η : α)
+    (hU1 : (Matrix.of U : MatR α n)ᵀ * Matrix.of U = 1) (hU2 : (Matrix.of U : MatR α n) * (Matrix.of U)ᵀ = 1)
+    (hge : ∀ i : Fin n, ridge ≤ e i)
+    (hη : ∀ i j, |((Matrix.of U : MatR α n)ᵀ * R * Matrix.of U - Matrix.diagonal e) i j| ≤ η)
+    (hsqrt : ∀ x, 0 ≤ x → sqrt x * sqrt x = x) (hinv : ∀ x, 0 < x → 0 ≤ invroot x ∧ invroot x ^ p * x = 1) :
+    let X : MatR α n := Matrix.of (eighVal sqrt U (eighInvE s invroot ridge e))
+    ∀ i j, |(X ^ p * R - 1) i j| ≤ (n : α) * η / ridge := by
+  intro X
+  have hcond : ∀ k : Fin n, n - 1 - k.val < s := fun k => by have := k.isLt; omega
+  have hv : ∀ k, eighInvE s invroot ridge e k = invroot (e k) := by
+    intro k
+    rw [eighInvE_eq s invroot ridge hridge e (fun i _ => hge i) k, if_pos (hcond k)]
+  have hepos : ∀ k, 0 < e k := fun k => lt_of_lt_of_le hridge (hge k)
+  have hv0 : ∀ k, 0 ≤ eighInvE s invroot ridge e k := fun k => by rw [hv]; exact (hinv _ (hepos k)).1
+  set UM : MatR α n := Matrix.of U with hUM
+  have hX : X = UM * Matrix.diagonal (eighInvE s invroot ridge e) * UMᵀ := by
+    show Matrix.of (eighVal sqrt U (eighInvE s invroot ridge e)) = _
+    rw [eighVal_eq]
+    have : (fun k => sqrt (eighInvE s invroot ridge e k) * sqrt (eighInvE s invroot ridge e k)) =
+        eighInvE s invroot ridge e := by funext k; exact hsqrt _ (hv0 k)
+    rw [this]
+  set w : Fin n → α := fun k => eighInvE s invroot ridge e k ^ p with hw
+  have hwe : ∀ k, w k * e k = 1 := fun k => by simp only [hw, hv]; exact (hinv _ (hepos k)).2
+  have hw0 : ∀ k, 0 ≤ w k := fun k => pow_nonneg (hv0 k) p
+  have hwc : ∀ k, w k ≤ 1 / ridge := by
+    intro k
+    have : w k = 1 / e k := by rw [eq_div_iff (ne_of_gt (hepos k))]; exact hwe k
+    rw [this]; exact one_div_le_one_div_of_le hridge (hge k)
+  set Δ : MatR α n := UMᵀ * R * UM - Matrix.diagonal e with hΔ
+  have hT : UMᵀ * R * UM = Matrix.diagonal e + Δ := by rw [hΔ]; exact (add_sub_cancel _ _).symm
+  have hR : R = UM * (UMᵀ * R * UM) * UMᵀ := by
+    calc R = (UM * UMᵀ) * R * (UM * UMᵀ) := by rw [hU2]; simp
+      _ = _ := by simp only [mul_assoc]
+  have hXp : X ^ p = UM * Matrix.diagonal w * UMᵀ := by rw [hX, conj_diag_pow _ hU1 hU2]
+  have hdiag : Matrix.diagonal w * Matrix.diagonal e = (1 : MatR α n) := by
+    rw [Matrix.diagonal_mul_diagonal]
+    have : (fun k => w k * e k) = fun _ => (1 : α) := funext hwe
+    rw [this, Matrix.diagonal_one]
+  have key : X ^ p * R - 1 = UM * (Matrix.diagonal w * Δ) * UMᵀ := by
+    have h1 : X ^ p * R = UM * (Matrix.diagonal w * (Matrix.diagonal e + Δ)) * UMᵀ := by
+      rw [hXp]
+      conv_lhs => rw [hR, hT]
+      calc UM * Matrix.diagonal w * UMᵀ * (UM * (Matrix.diagonal e + Δ) * UMᵀ)
+          = UM * Matrix.diagonal w * (UMᵀ * UM) * (Matrix.diagonal e + Δ) * UMᵀ := by simp only [mul_assoc]
+        _ = _ := by rw [hU1]; simp only [mul_one, mul_assoc]
+    rw [h1, mul_add, hdiag, mul_add, add_mul, mul_one, hU2, add_sub_cancel_left]
+  intro i j
+  rw [key]
+  have := conj_perturb_bound UM Δ hU2 w (1 / ridge) η hw0 hwc hη i j
+  calc _ ≤ (n : α) * (1 / ridge * η) := this
+    _ = (n : α) * η / ridge := by ring
+
+end Perturbed
 
 end PrecondVerif.InvRoot
